@@ -487,7 +487,7 @@ func (s *authzServer) parseAndValidateJwtBearerToken(context *validationContext)
 	token, err := nutsCrypto.ParseJWT(context.rawJwtBearerToken, func(kid string) (crypto.PublicKey, error) {
 		kidHdr = kid
 		return s.keyResolver.ResolveKeyByID(kid, nil, resolver.NutsSigningKeyType)
-	}, jwt.WithAcceptableSkew(s.clockSkew))
+	}, jwt.WithAcceptableSkew(s.clockSkew), jwt.WithRequiredClaim(jwt.ExpirationKey), jwt.WithRequiredClaim(jwt.IssuedAtKey))
 	if err != nil {
 		return err
 	}
